@@ -13,7 +13,7 @@ import traceback
 import z3
 
 from .values import *
-from .sstr import SStr, Sym
+from .sstr import SStr, CLASS_RANGES, SUBCLASS, DISJOINT, in_class_concrete, z3_in_ranges
 from .rtypes import parse_type, Ty
 from . import mirparse
 
@@ -56,6 +56,7 @@ class Program:
         self.crates = []
         self.src_cache = {}
         self.lazy_init = {}
+        self.rel_base = "/verif/harness"
 
     def add_crate(self, crate, mir_text):
         fs = mirparse.parse_mir(mir_text, crate)
@@ -80,7 +81,8 @@ class Program:
     def _read_src(self, path):
         if path not in self.src_cache:
             try:
-                self.src_cache[path] = open(path, encoding="utf-8").read().split("\n")
+                real = path if os.path.isabs(path) else os.path.join(self.rel_base, path)
+                self.src_cache[path] = open(real, encoding="utf-8").read().split("\n")
             except OSError:
                 self.src_cache[path] = None
         return self.src_cache[path]
@@ -250,6 +252,7 @@ class Ctx:
         self.hashes = []       # (content SStr, digest SStr) pairs of the symbolic hash model
         self.held = []         # lock guards currently alive
         self.harness = None
+        self.char_cls = {}
         self.statics = {}
         self.lazy = {}
         self.env = dict(self.opts.get("env") or {})
@@ -269,8 +272,26 @@ class Ctx:
             return z3.String(name)
         raise ValueError(sort)
 
-    def mark_safe(self, part):
-        self.__dict__.setdefault("_safe_cache", {})[part.e.get_id()] = True
+    def fresh_char(self, cls, prefix="c"):
+        v = self.fresh(prefix)
+        self.add(z3_in_ranges(v, CLASS_RANGES[cls]))
+        self.char_cls[v.get_id()] = cls
+        return v
+
+    def fresh_string(self, cls, n, prefix="s"):
+        return SStr.of_chars([self.fresh_char(cls, prefix) for _ in range(n)])
+
+    def char_in(self, c, cls):
+        """decide membership of a byte in a character class (may fork)"""
+        if type(c) is int:
+            return in_class_concrete(c, cls)
+        k = self.char_cls.get(c.get_id())
+        if k is not None:
+            if k == cls or (k, cls) in SUBCLASS:
+                return True
+            if (k, cls) in DISJOINT:
+                return False
+        return self.decide(z3_in_ranges(c, CLASS_RANGES[cls]))
 
     def add(self, c):
         if c is True:
@@ -481,6 +502,29 @@ class Ctx:
         m = self.solver.model()
         rec["inputs"] = [self.eval_input(m, k, t) for (k, t) in self.inputs]
         rec["observations"] = [[k, self.eval_input(m, k2, t)] for (k, k2, t) in self.observations]
+        rec["hash_dependent"] = bool(self.hashes)
+        if status == "panic" and self.hashes:
+            # the real SHA-256 will not reproduce the model's digests: offer alternative inputs
+            alts = []
+            terms = []
+            for (k, t) in self.inputs:
+                if isinstance(t, SStr):
+                    terms.extend(t.sym_vars())
+                elif is_sym(t):
+                    terms.append(t)
+            self.solver.push()
+            try:
+                for _ in range(int(self.opts.get("alt_models", 24))):
+                    if not terms:
+                        break
+                    self.solver.add(z3.Or(*[x != m.eval(x, model_completion=True) for x in terms]))
+                    if self.solver.check() != z3.sat:
+                        break
+                    m = self.solver.model()
+                    alts.append([self.eval_input(m, k, t) for (k, t) in self.inputs])
+            finally:
+                self.solver.pop()
+            rec["alt_inputs"] = alts
 
     def eval_input(self, m, kind, t):
         if isinstance(t, (int, bool, str)):
@@ -490,8 +534,7 @@ class Ctx:
         if isinstance(t, SStr):
             if t.is_concrete():
                 return t.concrete()
-            v = m.eval(t.to_z3(), model_completion=True)
-            return v.as_string() if not hasattr(v, "py_value") else z3str_to_py(v)
+            return "".join(chr(c if type(c) is int else m.eval(c, model_completion=True).as_long()) for c in t.chars)
         v = m.eval(t, model_completion=True)
         if z3.is_int_value(v):
             return v.as_long()
@@ -761,6 +804,23 @@ class Ctx:
             return copy_value(v)
         if f is not None and f.kind == "fn":
             return FnItem(path)
+        if "::promoted[" in path:
+            base, rest = path.split("::promoted[", 1)
+            suffix = ""
+            if "::{closure#" in base:
+                i = base.index("::{closure#")
+                base, suffix = base[:i], base[i:]
+            try:
+                ent = self.resolve(base, None)
+            except Unmodelled:
+                ent = None
+            if ent is not None and ent[0] == "mir":
+                f2 = self.prog.funcs.get(ent[1].name + suffix + "::promoted[" + rest)
+                if f2 is not None:
+                    v = self.call_function(f2, [])
+                    self.const_cache[path] = v
+                    return copy_value(v)
+            raise Unmodelled("promoted constant %s" % path)
         mm = re.match(r"(?:core::num::<impl )?(u8|u16|u32|u64|u128|usize|i8|i16|i32|i64|i128|isize)>?::(MIN|MAX|BITS)$", path)
         if mm:
             lo, hi = int_range(mm.group(1))
